@@ -14,6 +14,8 @@ programmer chose.
   C7  `True if c else False` -> `c` (`bool(c)` when c is not syntactically a boolean); `False if c else True` -> `not c`.
   C8  `[k for _ in range(n)]` with a constant k -> `[k] * n`.
   C9  `f(**{'k': v})` with literal keys -> `f(k=v)`.
+  C10 `if c: x = A else: x = B` -> `x = A if c else B`.
+  C11 `sum([... for ...])` (any, all, max, min, sorted, set, tuple, list) -> `sum(... for ...)`.
   C5  statements without effect (a bare constant expression that is not a docstring; `pass` in a block that has
       other statements) are dropped.
 
@@ -136,11 +138,26 @@ class _Canon(ast.NodeTransformer):
             t, sw = self._positive(n.test)
             if sw:
                 n.test, n.body, n.orelse = t, n.orelse, n.body
+        # C10: `if c: x = A else: x = B` is `x = A if c else B`
+        if len(n.body) == 1 and len(n.orelse) == 1 and isinstance(n.body[0], ast.Assign) and isinstance(n.orelse[0], ast.Assign) \
+                and len(n.body[0].targets) == 1 and len(n.orelse[0].targets) == 1 \
+                and isinstance(n.body[0].targets[0], (ast.Name, ast.Attribute)) \
+                and ast.unparse(n.body[0].targets[0]) == ast.unparse(n.orelse[0].targets[0]) and not self.pattern:
+            new = ast.Assign(targets=[n.body[0].targets[0]],
+                             value=ast.IfExp(test=n.test, body=n.body[0].value, orelse=n.orelse[0].value))
+            ast.copy_location(new, n)
+            ast.copy_location(new.value, n)
+            return new
         return n
 
     # C9: f(**{"k": v, ...}) with literal string keys is f(k=v, ...)
     def visit_Call(self, n):
         self.generic_visit(n)
+        # C11: a list comprehension consumed at once by a reducing builtin is a generator expression
+        if isinstance(n.func, ast.Name) and n.func.id in ("sum", "any", "all", "max", "min", "sorted", "set", "frozenset", "tuple",
+                                                           "list", "dict") and n.args and isinstance(n.args[0], ast.ListComp):
+            lc = n.args[0]
+            n.args[0] = ast.copy_location(ast.GeneratorExp(elt=lc.elt, generators=lc.generators), lc)
         new = []
         for k in n.keywords:
             if k.arg is None and isinstance(k.value, ast.Dict) and k.value.keys and all(
@@ -174,6 +191,9 @@ class _Canon(ast.NodeTransformer):
                 continue
             if isinstance(s, ast.Pass):
                 continue
+            if isinstance(s, ast.Assign) and len(s.targets) == 1 and isinstance(s.targets[0], ast.Name) \
+                    and isinstance(s.value, ast.Name) and s.value.id == s.targets[0].id:
+                continue        # x = x
             out.append(s)
         if not out:
             out = [body[0]] if body else body
